@@ -693,6 +693,11 @@ def check(ctx):
     _revalidation(ctx, nz)
     _renewal(ctx, nz, server, loop)
     _unknown_traits(ctx)
+    # shared with C06.5: an instance is queued by the allocation (hence the
+    # partition) it was loaded for, on every path of Cell.add_app
+    from . import c06
+    with ctx.shared({'C06': 'C03.4'}):
+        c06._single_membership(ctx)
 
 
 _S = 'lib/python/treadmill/scheduler/__init__.py'
